@@ -112,6 +112,65 @@ def denominators(t, seen=None, out=None):
     return out
 
 
+def outer_ites(t):
+    """outermost real-sorted If subterms."""
+    out, seen = [], set()
+    stack = [t]
+    while stack:
+        x = stack.pop()
+        i = x.get_id()
+        if i in seen:
+            continue
+        seen.add(i)
+        if z3.is_app(x):
+            if x.decl().kind() == z3.Z3_OP_ITE and x.sort() == z3.RealSort():
+                out.append(x)
+                continue
+            stack.extend(x.children())
+    return out
+
+
+def abstract_ites(t, prefix="ite"):
+    ites = outer_ites(t)
+    if not ites:
+        return None
+    sub = [(x, z3.Real(f"k!{prefix}!{x.get_id()}")) for x in ites]
+    return z3.substitute(t, *sub)
+
+
+def _flatten_mul(x):
+    if z3.is_app(x) and x.decl().kind() == z3.Z3_OP_MUL:
+        out = []
+        for c in x.children():
+            out += _flatten_mul(c)
+        return out
+    return [x]
+
+
+def abstract_monomials(t):
+    """replace every maximal product of >= 2 plain variables by one fresh real, keyed by the
+    sorted factor names (sound: an abstraction only forgets facts)."""
+    subs, seen, keys = [], set(), {}
+    stack = [t]
+    while stack:
+        x = stack.pop()
+        i = x.get_id()
+        if i in seen:
+            continue
+        seen.add(i)
+        if z3.is_app(x):
+            if x.decl().kind() == z3.Z3_OP_MUL:
+                fs = _flatten_mul(x)
+                if len(fs) >= 2 and all(z3.is_const(f) and f.decl().kind() == z3.Z3_OP_UNINTERPRETED for f in fs):
+                    key = tuple(sorted(f.decl().name() for f in fs))
+                    if key not in keys:
+                        keys[key] = z3.Real("k!mono!" + "*".join(key))
+                    subs.append((x, keys[key]))
+                    continue
+            stack.extend(x.children())
+    return z3.substitute(t, *subs) if subs else None
+
+
 def nlsat_solver(timeout_ms):
     return z3.TryFor(z3.Tactic("qfnra-nlsat"), timeout_ms).solver()
 
@@ -358,7 +417,18 @@ class Prover:
                 dens += denominators(a)
         dens = _dedup(dens)
         den_c = [d != 0 for d in dens]
-        # L1
+        # L1 with min/max/if terms treated as opaque values (sound: fewer facts), then exact
+        full = z3.And(neg, *den_c) if den_c else neg
+        ai = abstract_ites(full)
+        am = abstract_monomials(ai if ai is not None else full)
+        for cand in (am, ai):
+            if cand is None:
+                continue
+            tq = time.time()
+            st, m = _raw_check([cand], min(self.timeout_ms, 5000), fallback=False)
+            self.stats.solver_ms += (time.time() - tq) * 1000
+            if st == "unsat":
+                return done("unsat", "L1")
         tq = time.time()
         st, m = _raw_check([neg] + den_c, self.timeout_ms, fallback=False)
         self.stats.solver_ms += (time.time() - tq) * 1000
